@@ -15,15 +15,15 @@ func init() {
 	register(&Property{
 		ID:        "C33",
 		Title:     "Query evaluation never fails internally",
-		Technique: "table agreement (map-literal keys and switch case lists over go/types constants): parser function table vs engine implementation table, safe-function sets, aggregator and binary-operator dispatch; entry-point rule for the evaluator's panic recovery; who-may-call rule for the shared point-slice pools; reset-completeness rule for iterators reused across series",
+		Technique: "table agreement (map-literal keys and switch case lists over go/types constants): parser function table vs engine implementation table, safe-function sets, aggregator and binary-operator dispatch; entry-point rule for the evaluator's panic recovery; who-may-call rule for the shared point-slice pools; reset-completeness rule for iterators reused across series; index-guard rules over package promql (x[v-1], last element by variable); signature-table rule: constant argument accesses of every function implementation against the arity and argument types parser.Functions guarantees",
 		DesignRef: "DESIGN.md §5 C33",
 		Level: "Decides that every function the parser accepts has an implementation and vice versa, that the special function sets only name existing functions, that every aggregator item type is dispatched by one of the aggregation evaluators and that the scalar and vector binary-operator evaluators implement the same operator set, " +
-			"that evaluator.eval is only entered through Eval (which registers the panic-to-error recovery first), that slices go back to the shared pools only through the three helpers that truncate them, and that the series iterator the evaluator reuses across series re-initialises every one of its fields.",
+			"that evaluator.eval is only entered through Eval (which registers the panic-to-error recovery first), that slices go back to the shared pools only through the three helpers that truncate them, and that the series iterator the evaluator reuses across series re-initialises every one of its fields, that every index x[v-1] and every last-element access a[len(a)-1] by variable in package promql is protected by a test that makes it in range, and that no function implementation reads an argument, a sample of an argument vector, the range-vector series or a node type that the parser's signature table does not guarantee for that function.",
 		Note:           "Trusted: go/packages, go/types, go/cfg; rule tables in checker/c33.go.",
-		Covers:         "parser.Functions, promql.FunctionCalls, AtModifierUnsafeFunctions/AnchoredSafeFunctions/SmoothedSafeFunctions, evaluator.aggregation/aggregationK/aggregationCountValues dispatch, scalarBinop/vectorElemBinop, evaluator.Eval/recover, fPointPool/hPointPool/matrixSelectorHPool, storageSeriesIterator.reset.",
-		NotCover:       "absence of run-time faults inside the function implementations, numerical results, independence of concurrent queries beyond pool discipline.",
+		Covers:         "parser.Functions, promql.FunctionCalls, AtModifierUnsafeFunctions/AnchoredSafeFunctions/SmoothedSafeFunctions, evaluator.aggregation/aggregationK/aggregationCountValues dispatch, scalarBinop/vectorElemBinop, evaluator.Eval/recover, fPointPool/hPointPool/matrixSelectorHPool, storageSeriesIterator.reset, index expressions of package promql, the bodies of the functions registered in FunctionCalls.",
+		NotCover:       "run-time faults other than the index shapes named above (nil dereference, variable indexes, helper functions that receive the argument slices), numerical results, independence of concurrent queries beyond pool discipline.",
 		Run:            runC33,
-		MinObligations: 14,
+		MinObligations: 120,
 	})
 }
 
@@ -239,6 +239,7 @@ func runC33(c *eng.Ctx) {
 		}
 		c.Check("R6", "promql", "last-element-by-variable sites found (≥ 3)", n >= 3, "", fmt.Sprint(n))
 	}
+	runC33Args(c)
 }
 
 // lastIndexSites: index expressions a[v] in package promql where v is a local variable whose definition is
